@@ -5,11 +5,39 @@ ROOT = os.path.dirname(os.path.dirname(os.path.abspath(__file__)))
 IDS = ['C%02d' % i for i in range(1, 21)]
 
 # id -> (technique, level text, level note, design ref)
+COMMON_NOTE = ('Trusted: Coq 8.16.1 kernel (vm_compute, no native_compute); OCaml extraction (ExtrOcamlBasic only) cross-checked by '
+               'vm_compute; translators in /verif/translate; the Python harness. Modelled, not verified: ')
 CLAIMED = {
+ 'C01': ('Coq proof of the symmetric-delete search (candidate completeness via common deletion variant, exact filter); differential run of the extracted model vs symdel/nearest_neighbor',
+         'Theorems C01_* (coq/props/C01.v): for every list of strings over any alphabet and every k the modelled bucket-pairing algorithm returns exactly {(i,j,lev): i<>j, lev<=k}, no pair repeated, duplicates at distance 0, never (i,i); slev is proved to be the optimal edit cost. Unbounded in sizes and k; the tie to nn.py is the correspondence run (exhaustive small alphabets in one call + random clonal repertoires).',
+         COMMON_NOTE + 'rapidfuzz Levenshtein.distance, Python set/dict/itertools semantics.', 'DESIGN.md section 4 C01'),
+ 'C03': ('Coq proof of SymdelDB.lookup and LookupDB.lookup models (edit ball = breadth-first closure, proved exact), history invariance by induction; differential runs incl. database histories',
+         'Theorems C03_* (coq/props/C03.v): two-collection symdel and the hash lookup return exactly {(q,r,d): d = lev(query q, ref r) <= k} once each, including q = r and d = 0; the BFS ball holds exactly the strings within k edits; any lookup history leaves later answers equal to a one-shot search.',
+         COMMON_NOTE + 'rapidfuzz distances; LookupDB references over the amino-acid alphabet (its documented domain).', 'DESIGN.md section 4 C03'),
+ 'C04': ('Coq proof: histogram pre-filter bound (sqdist <= 2k^2 for any bin map), kdtree and hash models exact, hence the three engines agree; differential runs of kdtree/hash_based',
+         'Theorems C04_* (coq/props/C04.v): lev <= k implies squared histogram distance <= 2k^2 for every letter->bin map; the kdtree model (ball query + exact filter) and the hash model return exactly the C01 set; engines are set-equal.',
+         COMMON_NOTE + 'scipy KDTree.query_ball_point returns all points within the radius it is given (float64 radius sqrt(2)*k); rapidfuzz extract.', 'DESIGN.md section 4 C04'),
+ 'C06': ('Coq proof over the reals: multinomial factorial moments by induction on N, then field on the formulas regenerated from stats.py; exact-rational correspondence and exact enumeration of the expectation on the implementation',
+         'Theorems C06_* (coq/props/C06.v): for all N, K and every probability vector, E[pc_n] = sum p^2, E[pc(a,b)] = sum p q, E[varpc_n] = Var(pc) (N >= 4), where pc_n / varpc_n are the functions generated from the source on this run. A changed coefficient breaks the proof.',
+         COMMON_NOTE + 'float64 evaluation of the formulas (1e-9); Coq.Reals axioms sig_forall_dec, functional_extensionality_dep; the two-sample estimator formula is hand-written and tied by correspondence.', 'DESIGN.md section 4 C06'),
+ 'C07': ('Coq proof of Hamming-mode exactness for symdel (self and two-collection), the hash ball and the kdtree bucket search; differential runs over interleaved length classes',
+         'Theorems C07_* (coq/props/C07.v): each engine model returns exactly the ordered pairs of distinct input positions with equal length and <= k mismatches, d = number of mismatches; unequal lengths never. Positions are positions of the input list (kdtree buckets are mapped back).',
+         COMMON_NOTE + 'rapidfuzz Hamming.distance; scipy KDTree contract; the bucket-to-input position mapping of kdtree is in the executable model and tied by correspondence.', 'DESIGN.md section 4 C07'),
+ 'C10': ('Coq proof that the COO/dense form of a pair-unique triplet list holds d at [r][q] and 0 elsewhere (combined with the uniqueness theorems), argument-check decision table; differential runs over engines x containers x formats and the invalid-argument product',
+         'Theorems C10_* (coq/props/C10.v): dense form exact when no pair repeats (duplicates would be summed - shown), shape, the default engine\'s matrix entry formula, every invalid class rejected by the check model.',
+         COMMON_NOTE + 'scipy coo_matrix.toarray sums duplicates; container independence is definitional in the model and carried by correspondence (lists, tuples, arrays, Series with 4 index kinds).', 'DESIGN.md section 4 C10'),
+ 'C11': ('Coq proof: any chunk size >= 1 and any completion order of a modelled Pool.map give the serial result; chunk-size expression regenerated from nn.py proved >= 1; compression independence from the pre-filter theorem; top-m contract of stable sort + firstn; differential runs with real Pool workers',
+         'Theorems C11_* (coq/props/C11.v). The scheduler part is partial: the theorem covers every schedule of the modelled pool; that CPython Pool.map meets the contract and fork inheritance are runtime behaviour exercised (not proved) with real processes.',
+         COMMON_NOTE + 'multiprocessing.Pool.map ordered-result contract, fork start method, rapidfuzz extract ordering.', 'DESIGN.md section 4 C11'),
+ 'C12': ('Coq proof that the one-edit generators (with their duplicate-suppression rules) yield exactly the distance-1 strings, each once; BFS closure / next-nearest / set utilities characterised; list-level differential runs (order and duplicates visible)',
+         'Theorems C12_* (coq/props/C12.v): levenshtein_neighbors model exact and NoDup for any duplicate-free alphabet, hamming_neighbors for any position list, next_nearest = strings within 1..m steps, find_pairs lists each unordered pair once, neighbor numbers, isdist1.',
+         COMMON_NOTE + 'nndist_hamming is compared with a specification-level minimum (its enumeration loops are not modelled); Python generator/set semantics.', 'DESIGN.md section 4 C12'),
+ 'C14': ('Coq proof: every engine model with a custom distance keeps a pair iff lev <= k and custom <= max (generic in the distance), TCRdist glue exact for any tables / CDR3 distance, bundled V tables symmetric with zero diagonal by vm_compute on literals regenerated from the CSVs; differential runs with six custom distances and a vendored pwseqdist stand-in',
+         'Theorems C14_* (coq/props/C14.v). Partial for TCRdist: real pwseqdist is absent; what is decided is the glue around it (candidate search, table lookup by row allele, chain sums, threshold, empty result).',
+         COMMON_NOTE + 'custom distances symmetric with d(x,x)=0 (stated domain); pandas read_csv/get_indexer; the stand-in CDR3 distance.', 'DESIGN.md section 4 C14'),
  'C16': ('Coq proof: regenerated Chao kernels = closed forms (field/lra over Q), set algebra by NoDup counting; differential run of extracted model vs implementation',
-         'Theorems C16_* in coq/props/C16.v: the functions generated from stats.py on this run equal the closed forms for every count vector of length >= 1 (no exception path), a defined estimate is >= S_obs for integer counts, and the overlap measures are the stated set cardinalities, symmetric and invariant under order/duplicates. Proof is the right level because the claim quantifies over all vectors.',
-         'Trusted: Coq kernel; translate/py2coq_arith.py (fail-closed ast translator, output also run against the implementation); extraction; float64 within 1e-9 of the rational; pandas dropna / Python set semantics modelled, exercised by correspondence.',
-         'DESIGN.md section 4 C16'),
+         'Theorems C16_* in coq/props/C16.v: the functions generated from stats.py on this run equal the closed forms for every count vector of length >= 1 (no exception path), a defined estimate is >= S_obs for integer counts, and the overlap measures are the stated set cardinalities, symmetric and invariant under order/duplicates.',
+         COMMON_NOTE + 'float64 within 1e-9 of the rational; pandas dropna / Python set semantics.', 'DESIGN.md section 4 C16'),
 }
 
 def main():
